@@ -3,7 +3,8 @@ from props import parser_ob
 def obligations():
     parser_ob.ACCEPT_KEYS = {'panic', 'hang'}
     obs = parser_ob.obligations_seq('O4.2') + parser_ob.obligations_templates('O4.2')
-    from props import selftest_ob
+    from props import selftest_ob, lower_ob
+    obs += lower_ob.obligations_lower('O4.4')
     obs += selftest_ob.parser_obligations('O4.0')
     try:
         from props import e1_obs
@@ -13,6 +14,6 @@ def obligations():
 META = {
     'level': 'other',
     'explanation': 'Bounded solver-checked obligations over the real parser: the MIR of Parser::new, file::file (and everything it calls: items, statements, expressions, patterns, types, recovery) and Parser::build_tree of the current tree is executed symbolically with token kinds as solver variables over the full TokenKind list; rowan is replaced by a recorder that enforces its own panicking contract. On every feasible path: no panic edge (assert!, unreachable!, index, unwrap, overflow) is taken, Open/Close events balance, the run terminates within the step limit (a path exceeding it is replayed natively under a timeout and reported only if the native parser hangs). Inputs: all token sequences up to the stated length and valid skeletons with arbitrary holes.',
-    'assumptions': ['the logos DFA, lowering, name resolution, typer and later stages are outside this claim', 'token texts abstract; TokenKind Display stubbed', 'stack depth on deep nesting is not modelled'],
+    'assumptions': ['O4.4 extends the claim to CST->AST lowering (ast::lower executed from MIR on a model of the rowan red tree, validated against the native pipeline on corpus programs); the logos DFA, name resolution, typer and later stages are outside this claim', 'token texts abstract; TokenKind Display stubbed', 'stack depth on deep nesting is not modelled'],
     'trusted_base': ['mirsym MIR interpreter', 'std/rowan models listed per obligation', 'z3', 'rustc nightly MIR dump', 'rustdoc JSON type tables'],
 }
